@@ -4,6 +4,7 @@
   crate's own line parsers (`P0`); the connection is tied to that specification by C01.
 -/
 import MicroHttp.ConnSpec
+import MicroHttp.Proofs.OneShotMain
 namespace MicroHttp.C14
 open MicroHttp
 
@@ -22,7 +23,12 @@ def LinesWithin (bs : List Byte) : Prop := ∀ l ∈ splitCRLF (headOf bs), l.le
 theorem oneshot_sound (bs : List Byte) (r : Request) (L : Nat)
     (h : Request.tryFrom bs none = .ok r) (hl : LinesWithin bs) (hL : r.headers.contentLength ≤ L) :
     ∃ outs res, feed P0 L Abs.fresh bs = (outs, res) ∧ (delivers outs).head? = some r := by
-  sorry
+  refine OneShotAgree.oneShot_to_conn bs r L h ?_ hL
+  intro i hi l hm
+  apply hl
+  unfold headOf
+  rw [hi]
+  exact hm
 
 /-- Conversely: whenever the specification turns a slice into exactly one request with nothing
     left over, the one-shot parser accepts the slice with the same result — except GET requests that
@@ -31,23 +37,26 @@ theorem conn_complete (bs : List Byte) (r : Request) (L : Nat) (outs : List (Out
     (hf : feed P0 L Abs.fresh bs = (outs, .ok Abs.fresh)) (hd : delivers outs = [r])
     (hget : ¬ (r.line.method = .get ∧ r.headers.contentLength > 0)) :
     Request.tryFrom bs none = .ok r := by
-  sorry
+  rw [OneShotAgree.conn_to_oneShot bs r L outs hf hd, if_neg hget]
 
 /-- … and that exception is real: such a GET is rejected by the one-shot parser. -/
 theorem get_with_body_rejected (bs : List Byte) (r : Request) (L : Nat) (outs : List (Out RequestLine Headers))
     (hf : feed P0 L Abs.fresh bs = (outs, .ok Abs.fresh)) (hd : delivers outs = [r])
     (hget : r.line.method = .get ∧ r.headers.contentLength > 0) :
     Request.tryFrom bs none = .error (.parse .invalidRequest) := by
-  sorry
+  rw [OneShotAgree.conn_to_oneShot bs r L outs hf hd, if_pos hget]
 
 /-- The caller's maximum: a slice whose length reaches it is rejected … -/
 theorem max_rejects (bs : List Byte) (m : Nat) (h : bs.length ≥ m) :
     Request.tryFrom bs (some m) = .error (.parse .invalidRequest) := by
-  sorry
+  unfold Request.tryFrom
+  simp only [decide_eq_true h, if_true]
 
 /-- … and below it the maximum is irrelevant. -/
 theorem max_irrelevant (bs : List Byte) (m : Nat) (h : bs.length < m) :
     Request.tryFrom bs (some m) = Request.tryFrom bs none := by
-  sorry
+  unfold Request.tryFrom
+  have : decide (bs.length ≥ m) = false := decide_eq_false (by omega)
+  simp only [this]
 
 end MicroHttp.C14
